@@ -18,6 +18,9 @@ def run(ctx) -> None:
     from .c14 import rule_V8
     ctx.rules_run.append("V8")
     rule_V8(ctx)            # a copy keeps the selected member even when it is an untouched default message
+    from .c14 import rule_V11
+    ctx.rules_run.append("V11")
+    rule_V11(ctx)           # a pickle round trip keeps the selection: it goes through the encoding on every path
     ctx.rules_run.append("V5")
     rule_V5(ctx)            # copies must not share the selection table with the original
     from . import jsonrules
